@@ -328,6 +328,26 @@ func ruleDashAppend(w *World, r *Report, pf *patchFamily) {
 			r.Check(okB, rule, fmt.Sprintf("%s:append-exit#%d", fnName(fn), n), w.Pos(ret.Pos()),
 				"the exit taken for index -1 (the pointer token `-`) commits only where the hunk removes nothing",
 				"the exit taken for index -1 (the pointer token `-`) can commit although the hunk removes values: a test/remove pair addressed to `-` is accepted without comparing anything, where RFC 6902 fails")
+			// order: the appended values go behind the members the list already has
+			if c, isApp := isBuiltinCall(strip(ret.Results[0]), "append"); isApp && len(c.Call.Args) == 2 {
+				newP := pf.roleParam(fn, "newValues")
+				recv := fn.Params[0]
+				base := func(v ssa.Value) ssa.Value {
+					v = strip(v)
+					if sl, ok := v.(*ssa.Slice); ok {
+						v = strip(sl.X)
+					}
+					return v
+				}
+				a0, a1 := base(c.Call.Args[0]), base(c.Call.Args[1])
+				isR := func(v ssa.Value) bool { return v == ssa.Value(recv) }
+				isN := func(v ssa.Value) bool { return newP != nil && v == ssa.Value(newP) }
+				if (isR(a0) || isN(a0)) && (isR(a1) || isN(a1)) {
+					r.Check(isR(a0) && isN(a1), rule, fmt.Sprintf("%s:append-exit#%d:order", fnName(fn), n), w.Pos(ret.Pos()),
+						"the exit taken for index -1 returns the list's members followed by the added values",
+						"the exit taken for index -1 does not return the list's own members followed by the added values: `add …/-` must append behind the last member")
+				}
+			}
 			// context: test ops folded into Before/After must be enforced somewhere. The indexed path
 			// checks them against the neighbours of the index; the append exit has no index, so it may
 			// commit only where every context element is the boundary marker (nothing to enforce).
